@@ -45,10 +45,12 @@ class ClassRoot(KDDataset):
         return self.classes[int(idx)]
 
     def getall_class(self):
-        if self.bulk == "numpy":
-            return np.array(self.classes, dtype=np.int64)
-        if self.bulk == "tensor":
-            return torch.tensor(self.classes, dtype=torch.long)
+        # "numpy" / "tensor" / "list", or with an explicit (narrow) integer dtype: "numpy:uint8", "tensor:int16", ...
+        kind, _, dt = self.bulk.partition(":")
+        if kind == "numpy":
+            return np.array(self.classes, dtype=getattr(np, dt or "int64"))
+        if kind == "tensor":
+            return torch.tensor(self.classes, dtype=getattr(torch, dt or "long"))
         return list(self.classes)
 
     def getshape_class(self):
